@@ -56,6 +56,7 @@ static const char *g_prop = "C??";
 static int g_out = 1;
 static int g_thorough;
 static int g_workers = 16;
+static uint64_t g_la_cap = 6000000;           /* look-ahead entries kept per BFS level (beyond it: counted as lookahead_dropped) */
 static double g_deadline;           /* absolute, 0 = none */
 static int g_deadline_hit;
 static const char *g_replay;        /* token or NULL */
@@ -532,6 +533,7 @@ void mc_init(const char *property, int argc, char **argv)
         else if (!strcmp(a, "--tier=quick")) g_thorough = 0;
         else if (!strncmp(a, "--workers=", 10)) g_workers = atoi(a + 10);
         else if (!strncmp(a, "--deadline=", 11)) g_deadline = mc_now() + atof(a + 11);
+        else if (!strncmp(a, "--la-cap=", 9)) g_la_cap = strtoull(a + 9, NULL, 10);
         else if (!strncmp(a, "--replay=", 9)) g_replay = a + 9;
         else if (!strcmp(a, "--verbose")) g_verbose = 1;
         else if (!strncmp(a, "--hang-cpu=", 11)) g_hang_cpu_s = atoi(a + 11);
@@ -831,7 +833,8 @@ static int ss_add(strset *s, const char *k)      /* 1 if new */
 }
 
 typedef struct { uint32_t i; uint16_t op; uint16_t klen; } e1rec;
-typedef struct { uint16_t *ops; char *key; } fentry;
+typedef struct { uint16_t *ops; char *key; int la_only; } fentry;
+#define E1_LA 0x8000u
 struct mrec { e1rec r; char *key; };
 static int mrec_cmp(const void *a, const void *b)
 {
@@ -918,6 +921,7 @@ int mc_e1_run(const mc_sys *sys, int max_depth)
     fentry *F = calloc(1, sizeof(fentry)); size_t nF = 1;
     uint64_t states = 0, transitions = 0;
     int fixpoint = 0, depth_done = -1, incomplete = 0;
+    uint64_t la_dropped = 0;
     char key[MC_KEYMAX];
     {   /* level 0: the initial state */
         int c; void *st = e1_build(sys, NULL, 0, &c);
@@ -950,7 +954,7 @@ int mc_e1_run(const mc_sys *sys, int max_depth)
                 FILE *out = fdopen(fds[w], "w");
                 static char outbuf[1 << 16];
                 setvbuf(out, outbuf, _IOFBF, sizeof outbuf);
-                uint64_t tr = 0, replays = 0; int complete = 1;
+                uint64_t tr = 0, replays = 0, la_tr = 0; int complete = 1;
                 for (size_t i = (size_t) w; i < nF; i += (size_t) W) {
                     if (mc_deadline_hit()) { complete = 0; break; }
                     int crashed;
@@ -968,13 +972,22 @@ int mc_e1_run(const mc_sys *sys, int max_depth)
                         e1_guarded_apply(sys, st, op, &crashed);
                         mc_poll_sanitizers();
                         tr++;
+                        if (F[i].la_only) la_tr++;
                         if (crashed) continue;
                         if (g_viol_serial != v0) { e1_guarded(sys->teardown, st, "teardown-after-violation", &crashed); g_viol_serial = g_viol_serial; continue; }
+                        if (F[i].la_only) {             /* look-ahead entry: queries and teardown oracles only, nothing is added to the search */
+                            e1_guarded(sys->probe, st, "probe", &crashed);
+                            if (!crashed) e1_guarded(sys->teardown, st, "teardown", &crashed);
+                            continue;
+                        }
                         sys->canon(st, key, sizeof key);
                         if (ss_add(&seen, key)) {
                             e1_guarded(sys->probe, st, "probe", &crashed);
                             if (crashed) continue;
                             e1rec r = { (uint32_t) i, (uint16_t) op, (uint16_t) strlen(key) };
+                            fwrite(&r, sizeof r, 1, out); fwrite(key, 1, r.klen, out);
+                        } else if (sys->lookahead && L + 1 < max_depth) {
+                            e1rec r = { (uint32_t) i, (uint16_t) (op | E1_LA), (uint16_t) strlen(key) };
                             fwrite(&r, sizeof r, 1, out); fwrite(key, 1, r.klen, out);
                         }
                         e1_guarded(sys->teardown, st, "teardown", &crashed);
@@ -983,6 +996,7 @@ int mc_e1_run(const mc_sys *sys, int max_depth)
                 fflush(out);
                 mc_stat_add("transitions", (long) tr);
                 mc_stat_add("replays", (long) replays);
+                if (la_tr) mc_stat_add("lookahead_transitions", (long) la_tr);
                 worker_leave(w, complete);
             }
             pids[w] = p;
@@ -1014,13 +1028,24 @@ int mc_e1_run(const mc_sys *sys, int max_depth)
             if (in) fclose(in); else close(fds[w]);
         }
         qsort(R, nrec, sizeof *R, mrec_cmp);
-        fentry *NF = malloc((nrec ? nrec : 1) * sizeof(fentry)); size_t nNF = 0;
+        fentry *NF = malloc((nrec ? nrec : 1) * sizeof(fentry)); size_t nNF = 0, n_la = 0;
         for (size_t k = 0; k < nrec; k++) {
-            if (ss_add(&seen, R[k].key)) {
+            int la = (R[k].r.op & E1_LA) != 0; R[k].r.op &= (uint16_t) ~E1_LA;
+            if (!la && !ss_add(&seen, R[k].key)) la = sys->lookahead && L + 1 < max_depth ? 1 : 2;     /* found by two workers: the second one is a duplicate */
+            if (la == 1 && n_la >= g_la_cap) { la_dropped++; la = 2; }
+            if (la == 2) { free(R[k].key); continue; }
+            if (la == 1) {
                 uint16_t *ops = malloc(sizeof(uint16_t) * (size_t) (L + 1));
                 if (L) memcpy(ops, F[R[k].r.i].ops, sizeof(uint16_t) * (size_t) L);
                 ops[L] = R[k].r.op;
-                NF[nNF].ops = ops; NF[nNF].key = R[k].key; nNF++;
+                NF[nNF].ops = ops; NF[nNF].key = R[k].key; NF[nNF].la_only = 1; nNF++; n_la++;
+                continue;
+            }
+            {
+                uint16_t *ops = malloc(sizeof(uint16_t) * (size_t) (L + 1));
+                if (L) memcpy(ops, F[R[k].r.i].ops, sizeof(uint16_t) * (size_t) L);
+                ops[L] = R[k].r.op;
+                NF[nNF].ops = ops; NF[nNF].key = R[k].key; NF[nNF].la_only = 0; nNF++;
                 states++;
                 if (nNF == 1 || (k == nrec - 1)) {
                     cur.hist = ops; cur.hlen = L + 1; cur.op = -1; cur.phase = NULL; cur.note[0] = 0;
@@ -1028,7 +1053,7 @@ int mc_e1_run(const mc_sys *sys, int max_depth)
                     desc[900] = 0; g_nsamples = 0;
                     mc_sample("%s: %s -> %s", sys->name, desc, R[k].key);
                 }
-            } else free(R[k].key);
+            }
         }
         free(R);
         for (size_t i = 0; i < nF; i++) { free(F[i].ops); free(F[i].key); }
@@ -1042,6 +1067,7 @@ int mc_e1_run(const mc_sys *sys, int max_depth)
     (void) transitions;
     mc_stat_add("states", (long) states);
     if (incomplete) mc_stat_add("incomplete", 1);
+    if (la_dropped) mc_stat_add("lookahead_dropped", (long) la_dropped);
     if (fixpoint) mc_stat_add("fixpoints", 1); else mc_stat_add("depth_bounded_systems", 1);
     mc_stat_add("systems", 1);
     mc_info(sys->name, "states=%llu depth_completed=%d fixpoint=%d ops=%d%s", (unsigned long long) states, depth_done, fixpoint, sys->n_ops,
